@@ -280,6 +280,22 @@ func (idx *PQIndex) Add(vector VectorNode) error {
 		return err
 	}
 
+	// Re-adding a removed ID is an update: drop the stale soft-deleted entry
+	// so that the new vector is visible and survives the next Flush.
+	if id := vector.ID(); idx.deletedNodes.Contains(id) {
+		keptCodes := idx.codes[:0]
+		keptNodes := idx.vectorNodes[:0]
+		for i, v := range idx.vectorNodes {
+			if v.ID() != id {
+				keptCodes = append(keptCodes, idx.codes[i])
+				keptNodes = append(keptNodes, v)
+			}
+		}
+		idx.codes = keptCodes
+		idx.vectorNodes = keptNodes
+		idx.deletedNodes.Remove(id)
+	}
+
 	// Encode vector into PQ code
 	code := idx.encode(vector.Vector())
 
